@@ -7,6 +7,8 @@
 //! inside part is an independent 2-D convex clip of the unit triangle.
 
 use super::attr::{Attr, MAXC};
+use re::math::angle::Angle;
+use re::math::point::{Point2, Point3};
 use crate::geo::{self, P2};
 use crate::{catch, f32v, next_down, next_up, Cfg, Hasher, Json, Report, Rng};
 use re::geom::{vertex, Tri};
@@ -502,7 +504,11 @@ fn one_case<A: Attr>(rng: &mut Rng, rep: &mut Report, kind: u32, code: Option<u6
 }
 
 fn dispatch(rng: &mut Rng, rep: &mut Report, kind: u32, code: Option<u64>) {
-    match rng.below(7) {
+    match rng.below(11) {
+        7 => one_case::<Angle>(rng, rep, kind, code),
+        8 => one_case::<Point3>(rng, rep, kind, code),
+        9 => one_case::<((Vec2, f32), Vec2)>(rng, rep, kind, code),
+        10 => one_case::<(Color3f, Point2)>(rng, rep, kind, code),
         0 => one_case::<f32>(rng, rep, kind, code),
         1 => one_case::<Vec2>(rng, rep, kind, code),
         2 => one_case::<Vec3>(rng, rep, kind, code),
@@ -660,6 +666,21 @@ pub fn run(cfg: &Cfg, rep: &mut Report) {
         let t = InTri { p: [[0., 0., 0., 1.], [2., 0., 0., 1.], [0., 0., 2., 1.]], a: [[0.0; MAXC], [1.0, 0., 0., 0., 0.], [2.0, 0., 0., 0., 0.]] };
         let r = clip_one::<f32>(&t).and_then(|o| if o.len() == 2 { Ok(()) } else { Err(format!("expected a quad (2 triangles), got {}", o.len())) });
         rep.pin("clip.quad_example", r);
+    }
+
+    {
+        // F21: (-1,2,-2.5,0), (-2.5,-1.5,-1,3), (1,-1,-2.5,1) scaled by 2^-74
+        // clipped to nothing (d0*d1 underflowed); unscaled it gives two triangles
+        let f = 2.0f32.powi(-74);
+        let p = [[-1.0f32, 2.0, -2.5, 0.0], [-2.5, -1.5, -1.0, 3.0], [1.0, -1.0, -2.5, 1.0]];
+        let a = [[0.0; MAXC], [1.0, 0., 0., 0., 0.], [2.0, 0., 0., 0., 0.]];
+        let (t, ts) = (InTri { p, a }, InTri { p: p.map(|v| v.map(|x| x * f)), a });
+        let r = match (clip_one::<f32>(&t), clip_one::<f32>(&ts)) {
+            (Ok(o0), Ok(o1)) if o0.len() == o1.len() && !o0.is_empty() => Ok(()),
+            (Ok(o0), Ok(o1)) => Err(format!("clip of the triangle scaled by 2^-74 yields {} triangle(s), unscaled {}", o1.len(), o0.len())),
+            _ => Err("clip panicked".into()),
+        };
+        rep.pin("F21.clip_tiny_scale", r);
     }
 
     let full = !cfg.quick();
